@@ -78,7 +78,12 @@ Record kprm := mkPrm {
   p_ca : bool;          (* bicgstab: check_after *)
   p_M : nat;            (* gmres family: restart *)
   p_left : bool;        (* pside == side::left *)
-  p_damping : S         (* richardson *)
+  p_damping : S;        (* richardson *)
+  p_K : nat;            (* lgmres: number of augmentation vectors *)
+  p_areset : bool;      (* lgmres: always_reset *)
+  p_L : nat;            (* bicgstabl *)
+  p_delta : S;          (* bicgstabl *)
+  p_convex : bool       (* bicgstabl *)
 }.
 
 Record kres := mkRes { k_it : nat; k_res : S; k_x : vec; k_oof : bool }.
@@ -390,6 +395,93 @@ Definition fgmres (A P : vec -> vec) (prm : kprm) (f x0 : vec) (junk : gm_ws) : 
   | Go nr =>
     let eps := smax (p_tol prm * nr) (p_abstol prm) in
     let '(r, w) := fg_outer A P prm f eps nr (SS (p_maxiter prm)) x0 junk 0 false in
+    (KOk r, w)
+  end.
+
+(* =====================================================================
+   LGMRES(M,K) (lgmres.hpp:218-376).  GMRES workspace (vs = g_v, ws = g_z: the vectors z fed to
+   the Arnoldi process, by value -- they are not modified between ws[j] = z and lin_comb) plus
+   the K augmentation vectors outer_v_data[] and the circular buffer outer_v of slot indices,
+   which is OBJECT STATE: it survives the call when always_reset = false.  H0 is write-only in
+   the code and not modelled.                                                                  *)
+Record cbuf := mkCb { cb_start : nat; cb_buf : list nat }.
+Fixpoint set_nth_nat (l : list nat) (i v : nat) : list nat :=
+  match l, i with
+  | [], _ => []
+  | _ :: tl, O => v :: tl
+  | a :: tl, SS k => a :: set_nth_nat tl k v
+  end.
+(* circular_buffer (util.hpp:324-359), capacity K *)
+Definition cb_push (K : nat) (c : cbuf) (v : nat) : cbuf :=
+  if Nat.ltb (length (cb_buf c)) K then mkCb (cb_start c) (cb_buf c ++ [v])
+  else mkCb ((cb_start c + 1) mod K)%nat (set_nth_nat (cb_buf c) (cb_start c) v).
+Definition cb_get (K : nat) (c : cbuf) (i : nat) : nat := nth ((cb_start c + i) mod K)%nat (cb_buf c) 0.
+Definition cb_clear : cbuf := mkCb 0 [].
+
+Record lg_ws := mkLgWs { l_g : gm_ws; l_data : nat -> vec; l_outer : cbuf }.
+
+Definition lg_body (A P : vec -> vec) (left : bool) (Mt K : nat) (data : nat -> vec) (outer : cbuf)
+                   (w : gm_ws) (j : nat) : gm_ws * S :=
+  let osz := length (cb_buf outer) in
+  (* if (j >= M - outer_v.size()) z = outer_v[j - (M - outer_v.size())]; else z = vs[j]; ws[j] = z *)
+  let z := if Nat.leb (Mt - osz)%nat j then data (cb_get K outer (j - (Mt - osz))%nat) else g_v w j in
+  let '(vnew0, T) := pspmv left A P z in
+  arnoldi_tail (mkGmWs (g_H w) (g_s w) (g_cs w) (g_sn w) T (g_v w) (upd (g_z w) j z)) j vnew0.
+
+Record lg_cyc := mkLgCyc { y_x : vec; y_ws : lg_ws; y_it : nat; y_nouter : nat; y_oof : bool }.
+
+Definition lg_cycle (A P : vec -> vec) (prm : kprm) (eps norm_r : S) (x : vec) (w : lg_ws) (it n_outer : nat) : lg_cyc :=
+  let left := p_left prm in
+  let K := p_K prm in
+  let Mt := (p_M prm + K)%nat in
+  let g := l_g w in
+  let v0 := k_axpby (sinv norm_r) (g_r g) s0 (g_v g 0) in
+  let g1 := mkGmWs (g_H g) (upd (fun _ => sofQ (0 # 1)%Q) 0 norm_r) (g_cs g) (g_sn g) (g_r g) (upd (g_v g) 0 v0) (g_z g) in
+  let r := gm_inner (lg_body A P left Mt K (l_data w) (l_outer w)) (p_maxiter prm) Mt eps (pred Mt) g1 0 it in
+  let g2 := n_ws r in
+  let sv := backsub (g_H g2) (rev (seq 0 (n_j r))) (g_s g2) in
+  let dx := k_lin_comb (cv_of sv (g_z g2) (n_j r)) s0 (g_r g2) in
+  (* apply step; for side = right tmp = *ws[0], which is vs[0] unless the buffer fills all of W *)
+  let osz := length (cb_buf (l_outer w)) in
+  let '(x', vs', data1) :=
+    if left then (k_axpby s1 dx s1 x, g_v g2, l_data w)
+    else let tmp := P dx in
+         if Nat.leb (Mt - osz)%nat 0
+         then (k_axpby s1 tmp s1 x, g_v g2, upd (l_data w) (cb_get K (l_outer w) 0) tmp)
+         else (k_axpby s1 tmp s1 x, upd (g_v g2) 0 tmp, l_data w) in
+  let g3 := mkGmWs (g_H g2) sv (g_cs g2) (g_sn g2) dx vs' (g_z g2) in
+  (* store the LGMRES augmentation vector *)
+  let norm_dx := norm_b dx in
+  if Nat.ltb 0 K && negb (is_zero norm_dx) then
+    let slot := (n_outer mod K)%nat in
+    let data2 := upd data1 slot (k_axpby (sinv norm_dx) dx s0 (data1 slot)) in
+    mkLgCyc x' (mkLgWs g3 data2 (cb_push K (l_outer w) slot)) (n_it r) (SS n_outer) (n_oof r)
+  else mkLgCyc x' (mkLgWs g3 data1 (l_outer w)) (n_it r) n_outer (n_oof r).
+
+Fixpoint lg_outer (A P : vec -> vec) (prm : kprm) (f : vec) (eps nr : S)
+                  (fuel : nat) (x : vec) (w : lg_ws) (it n_outer : nat) (oof : bool) : kres * lg_ws :=
+  let g := l_g w in
+  let g0 := if p_left prm
+            then let v0 := k_residual f (A x) in
+                 mkGmWs (g_H g) (g_s g) (g_cs g) (g_sn g) (P v0) (upd (g_v g) 0 v0) (g_z g)
+            else mkGmWs (g_H g) (g_s g) (g_cs g) (g_sn g) (k_residual f (A x)) (g_v g) (g_z g) in
+  let w0 := mkLgWs g0 (l_data w) (l_outer w) in
+  let norm_r := norm_b (g_r g0) in
+  if sltb norm_r eps || Nat.leb (p_maxiter prm) it then (mkRes it (norm_r / nr) x oof, w0)
+  else match fuel with
+       | O => (mkRes it (norm_r / nr) x true, w0)
+       | SS k => let c := lg_cycle A P prm eps norm_r x w0 it n_outer in
+                 lg_outer A P prm f eps nr k (y_x c) (y_ws c) (y_it c) (y_nouter c) (oof || y_oof c)
+       end.
+
+Definition lgmres (A P : vec -> vec) (prm : kprm) (f x0 : vec) (st : lg_ws) : kout * lg_ws :=
+  (* if (prm.always_reset) outer_v.clear();  -- before the trivial-solution exit *)
+  let st0 := if p_areset prm then mkLgWs (l_g st) (l_data st) cb_clear else st in
+  match k_prologue norm_b prm f with
+  | Trivial nr => (k_trivial nr x0, st0)
+  | Go nr =>
+    let eps := smax (p_tol prm * nr) (p_abstol prm) in
+    let '(r, w) := lg_outer A P prm f eps nr (SS (p_maxiter prm)) x0 st0 0 0 false in
     (KOk r, w)
   end.
 
